@@ -153,7 +153,7 @@ CHECKS["C10"] = dict(
           'sources, whose fetchers address memory directly by design); accessors are not installed on > 32 bpp images (documented'
           ' restriction). Value law for every narrow source format incl. indexed and YUV: what the float pipeline reads '
           '(rgba_float destination) is within one 8-bit step of what the 8-bit pipeline reads. Callbacks may be installed after '
-          'the images were first drawn with. The codec property also runs under the MMX and the general-only chain. Non-trivial ='
+          'the images were first drawn with. Float narrowing (exh): an rgba_float ramp from -1e30 to 1e30 stored into every packed format by SRC and, for formats with alpha, by MULTIPLY onto a cleared destination (unclamped combiner): 0 below 0, the channel maximum above 1, monotone in between. The codec property also runs under the MMX and the general-only chain. Non-trivial ='
           ' unaligned start/end, indexed/YUV source, or accessor callbacks observed.'),
     jobs=[
         dict(harness="formats", prop="exh", cases=T(1200, 1500), procs=T(4, 8)),
@@ -204,7 +204,7 @@ CHECKS["C12"] = dict(
     rule=('rapidcheck cases: a1/a4/a8 images 1-40 x 1-24 (incl. widths 1,31,32,33,64, padded strides, zero/random/full prefill), '
           'trapezoids whose top/bottom and line points are biased onto pixel boundaries, sample rows/columns +-2 units and 1/16 '
           "steps, lines spanning or not spanning the trapezoid's height, shapes partly/wholly outside, x/y offsets -40..40. 6% of"
-          ' trapezoids have lines given by two points 8000-30000 px above the image and a bottom far below it. Laws: (model) '
+          ' trapezoids have lines given by two points 8000-30000 px above the image and a bottom far below it; 10% of composite-law cases (3% elsewhere) use a degenerate first shape (zero/negative height, an edge line through two points of equal y). Laws: (model) '
           'every pixel equals the saturating count of grid samples with X_l <= x < X_r, top <= y < bottom computed in exact '
           'rational arithmetic (pixels where an edge passes within 2 units of a sample point are skipped and counted); horizontal'
           ' split, edge split with the middle line given by the same two points, whole-pixel offset commutation, triangle = '
@@ -230,7 +230,7 @@ CHECKS["C02"] = dict(
           'image property; one plain request in six is shaped like the scaled nearest/bilinear fast-path families (SRC/OVER/ADD, '
           '8888/565, positive scale, no mask / a8 mask with runs of 0x00 and 0xff / solid mask); 40% of scaled sources are '
           "'cover' requests with scales of either sign and magnitude up to 4 (rows visited backwards, strides > 1); 8% are "
-          '20000-32000 px wide sources sampled with a large step from left of the image (sums beyond 2^31 units)) and '
+          '20000-32000 px wide sources sampled with a large step from left of the image (sums beyond 2^31 units); 5% of plain requests are pixbuf pairs (an x888 source and an a888 mask that are two images on one buffer, offsets 0-2); 4% are shaped like the whole-image quarter-turn routines (SRC, no mask, same 8888/565/a8 format), quarter turns with translations of +-1/2 pixel +- 1 unit; 30% of masked plain requests with a transformed bits source give the mask the placement of the source and are preceded, on the same thread, by their twin with a plain mask (per-thread cache of resolved combinations)) and '
           'pixman_fill/pixman_blt requests (bpp 1..128 incl. unsupported, x/width 0-130, padded strides, 0-12 byte start '
           'offsets), each rendered by 8 (quick) / 32 (thorough) worker processes started with different PIXMAN_DISABLE values; '
           'destination digests (undefined bits masked) and the alpha-map digests must equal those of the general-only chain; '
@@ -333,7 +333,7 @@ CHECKS["C08"] = dict(
     level="exploration",
     rule=('rapidcheck scenes: source 1-9 x 1-9 of a8r8g8b8/x8r8g8b8/r5g6b5/a8 (70%) or another narrow format incl. indexed and '
           'sub-byte, OP_SRC into a8r8g8b8 (1-12 x 1-4, optionally split by a clip so that scanlines start at different x), '
-          'transform from {integer/fractional translate, scale incl. negative, rot90 family, general affine, projective}, with '
+          'transform from {integer/fractional translate, scale incl. negative, rot90 family, general affine, projective} (8% negated entry by entry: w < 0 at every pixel), with '
           'fractional parts biased to {0, 1/2, 1 unit, 1-1 unit, 1/4, 3/4} and first samples steered onto pixel boundaries +-2 '
           'units; filters NEAREST/FAST, BILINEAR/GOOD/BEST, CONVOLUTION (1-5 x 1-5, negative taps), SEPARABLE_CONVOLUTION (1-5 '
           'taps, 0-4 phase bits per axis); all four repeats. 6% of sources are 20000-32000 px wide and sampled with a large step '
@@ -396,7 +396,7 @@ CHECKS["C13"] = dict(
           'gradients (any angle, centre on a pixel centre); four repeats; identity / scale / affine / projective transforms; '
           'a8r8g8b8 and rgba_float destinations; rows of 1-40 pixels. Special modes (6% each): 1-3 px wide, 300-4000 px tall '
           'requests over almost horizontal linear gradients; geometry 16400-29000 px away from the request; internally tangent '
-          'circles (a == 0 exactly). 30% of requests use OVER onto a random destination instead of SRC (pixels without admissible'
+          'circles (a == 0 exactly; 40% of them untransformed and on the pixel grid, so that a column of pixel centres lies exactly on the tangent line, where no root exists and the pixel must be transparent). 30% of requests use OVER onto a random destination instead of SRC (pixels without admissible'
           " parameter must keep the destination exactly). 'Keystone' projective transforms (one non-zero entry in the last row); "
           '20% of requests are drawn through an a8 mask with runs of 0x00/0xff (pixels under other mask values are not asserted).'
           ' Oracle: t from the geometry in long double at the pixel centre and at positions a few 1/65536 away (scaled by the '
@@ -481,8 +481,8 @@ CHECKS["C20"] = dict(
     rule=('rapidcheck histories over a pool of 6 image slots (bits with library-owned and caller-owned buffers, indexed, solid, '
           'linear/radial/conical): create, ref, unref, set_destroy_function (callback checks image/data pairing and that the '
           'image is intact), set_alpha_map (attach, re-attach the same, replace, detach, chains that must be refused), '
-          'set_clip_region32 / set_clip_region (16-bit), set_transform, set_filter with parameter arrays (replaced several '
-          'times), set_indexed, glyph-cache insert/remove of pool images, drawing, refused constructor calls (overflowing size, '
+          'set_clip_region32 / set_clip_region (16-bit; 1-3, 15-18 and 40 rectangles), set_transform (matrix, explicit identity, NULL), set_filter with parameter arrays (replaced several '
+          'times; also a refused call with 2^29 parameters), set_indexed, glyph-cache insert/remove of pool images, drawing, refused constructor calls (overflowing size, '
           'stride not a multiple of 4, format deeper than its pixel: NULL and nothing left allocated); then the pool is drained. '
           "Model: user reference count + 'held as alpha map by' edges. unref returns TRUE exactly when the model's count reaches "
           'zero; each destroy callback fires exactly once and exactly then; maps stay alive while attached and die with their '
